@@ -333,6 +333,48 @@ fn sweep(e: &'static Engine, depth: usize, queue_first: bool) {
     }
 }
 
+/// the handle is dropped by the producer right after the push (what Sleep::subscribe does with its timer handle) while the
+/// consumer pops: the node's two owners release it from two threads
+fn producer_drops_handle(e: &'static Engine, prods: &'static [usize], pops: usize) {
+    let q: Arc<Queue<Tracked>> = Arc::new(Queue::new());
+    e.begin();
+    let mut tids = vec![];
+    for (p, n) in prods.iter().enumerate() {
+        let q = q.clone();
+        let n = *n;
+        tids.push(e.spawn("producer", move || {
+            for k in 0..n {
+                let (h, _) = q.push(Tracked::new((p * 10 + k + 1) as u32));
+                drop(h);
+            }
+        }));
+    }
+    let mut got: Vec<u32> = vec![];
+    for _ in 0..pops {
+        if let Some(t) = q.pop() {
+            got.push(t.id());
+        }
+    }
+    for t in tids {
+        e.join(t);
+    }
+    while let Some(t) = q.pop() {
+        got.push(t.id());
+    }
+    let mut want: Vec<u32> = vec![];
+    for (p, n) in prods.iter().enumerate() {
+        let mine: Vec<u32> = got.iter().cloned().filter(|id| (*id as usize - 1) / 10 == p).collect();
+        let exp: Vec<u32> = (0..*n).map(|k| (p * 10 + k + 1) as u32).collect();
+        if mine != exp {
+            e.fail("exactly_once_in_order", &format!("producer {} pushed {:?}, the consumer got {:?}", p, exp, mine));
+        }
+        want.extend(exp);
+    }
+    drop(q);
+    check_drops(e, want.iter().cloned());
+    e.note(&format!("{:?}", got));
+}
+
 fn mk(prefill: usize, prods: &'static [usize], cons: &'static str, drop_left: bool) -> Scenario {
     let name = format!(
         "list.pre{}.prod{}.cons{}{}",
@@ -379,6 +421,9 @@ pub fn build(quick: bool) -> Vec<Scenario> {
             v.push(r);
         }
     }
+    // handles dropped on the producer's thread
+    v.push(Scenario::new("C19", "list_v1_handle_drop", "list.handle_dropped_by_producer.prod2.pop2", Arc::new(|e| producer_drops_handle(e, &[2], 2))).fine().bound(d + 1));
+    v.push(Scenario::new("C19", "list_v1_handle_drop", "list.handle_dropped_by_producer.prod1_1.pop2", Arc::new(|e| producer_drops_handle(e, &[1, 1], 2))).fine().bound(d));
     // the plain list
     v.push(Scenario::new("C19", "list_v0", "list0.prod1_1.pop2", Arc::new(|e| v0_member(e, &[1, 1], 2))).fine().bound(d + 1));
     v.push(Scenario::new("C19", "list_v0", "list0.prod2_1.pop2", Arc::new(|e| v0_member(e, &[2, 1], 2))).fine().bound(d));
